@@ -81,6 +81,23 @@ def run(ck):
                 ops.append((["ver", str(pre_meta[h][0]), pre_meta[h][1].hex(), valid[h]], "api-ver-valid"))
             else:
                 ops.append((["enc", str(cm), str(hm), str(T), key.hex(), rnd_seed(r).hex(), wv.hexs(rnd_bytes(r, r.choice([10, CH - 20, CH * r.randrange(1, 4) - r.randrange(0, 17)])))], "api-enc-multichunk"))
+        # after (and before) a successful verify/decrypt of a file: the same operations on a copy of that file, same key, same
+        # length, same header and IV area, whose body was changed -- anything remembered from the successful run ("already
+        # verified", recycled buffers) must not carry over
+        if h in valid and r.random() < 0.7:
+            Tv, kv, _, _, _ = pre_meta[h]
+            good = valid[h]
+            gb = bytearray(bytes.fromhex(good))
+            tm = 48 + 20 * Tv
+            pos = r.choice([74 if 74 < len(gb) else len(gb) - 1, tm, len(gb) - 1, r.randrange(min(74, len(gb) - 1), len(gb))])
+            gb[pos] ^= 1 << r.randrange(8)
+            bad = bytes(gb).hex()
+            block = [(["ver", str(Tv), kv.hex(), bad], "api-ver-tampered-copy"), (["ver", str(Tv), kv.hex(), good], "api-ver-valid"),
+                     (["ver", str(Tv), kv.hex(), bad], "api-ver-tampered-copy"), (["dec", str(Tv), kv.hex(), bad], "api-dec-tampered-copy"),
+                     (["dec", str(Tv), kv.hex(), good], "api-dec-valid-multichunk"), (["dec", str(Tv), kv.hex(), bad], "api-dec-tampered-copy")]
+            start = r.randrange(0, 3)
+            at = r.randrange(0, len(ops) + 1)
+            ops[at:at] = block[start:]
         hist_ops[h] = ops
         lines.append("h%d hist %s" % (h, ";".join(",".join(f.replace("{D}", dirs["hist"]) for f in fields) for fields, _ in ops)))
         for i, (fields, _) in enumerate(ops):
@@ -123,5 +140,5 @@ def run(ck):
             ck.cov["samples"].append({"history": [k for _, k in ops], "results": [p[:30] for p in parts]})
     ck.cov["distinct_nontrivial"] = len(distinct)
     ck.cov["histories"] = nhist
-    return finish_proof(ck, rule="%d random histories of 3..8 operations in ONE process (library-level encrypt incl. multi-chunk and T up to 16, decrypt of garbage, verify with a bad tag; option-driven encrypt / decrypt / decrypt with wrong key / verify through get_v_opt; parses aborted inside a clustered option, failing parses, -V/-h) against the same operation alone in a freshly forked process; results and output bytes compared (option-driven encryption: status and length only, its IV seed is random). distinct = distinct (kind, position, short arguments)" % nhist,
+    return finish_proof(ck, rule="%d random histories of 3..8 operations in ONE process (library-level encrypt incl. multi-chunk and T up to 16, decrypt of garbage, verify with a bad tag, verify/decrypt of a valid file interleaved with verify/decrypt of a same-length copy whose body was changed; option-driven encrypt / decrypt / decrypt with wrong key / verify through get_v_opt; parses aborted inside a clustered option, failing parses, -V/-h) against the same operation alone in a freshly forked process; results and output bytes compared (option-driven encryption: status and length only, its IV seed is random). distinct = distinct (kind, position, short arguments)" % nhist,
                         assumptions=["glibc getopt_long: optind = 0 reinitialises the scanner (documented glibc behaviour)"])
